@@ -226,7 +226,7 @@ func (a *SArr) set(i, v *Term) {
 	a.r = &ropeStore{under: a.r, idx: i, val: v}
 }
 
-const copyMaterialize = 2048
+const copyMaterialize = 32
 
 // copyFrom implements copy(a[dst:dst+n], src[srcOff:srcOff+n]).
 func (a *SArr) copyFrom(dst *Term, src Rope, srcOff, n *Term) {
